@@ -2,20 +2,19 @@ package main
 
 import (
 	"fmt"
-	"os"
 	"strings"
 
 	"vharness/internal/core"
 )
 
-func main() {
-	pkgs, _, err := core.Load(os.Args[1], os.Args[2:], nil)
+// cmdLoadcheck <dir> <patterns...>: loads like the CLI and prints type errors ("bad N").
+func cmdLoadcheck(args []string) {
+	pkgs, _, err := core.Load(args[0], args[1:], nil)
 	fmt.Println("err", err, "pkgs", len(pkgs))
 	bad := 0
 	for _, p := range pkgs {
 		if p.NErrors > 0 {
 			bad++
-			fmt.Println("==", p.ID)
 			for _, e := range p.Errors {
 				fmt.Println("   ", strings.TrimSpace(e))
 			}
